@@ -333,6 +333,13 @@ func (bf *boundsFn) numberLoads() {
 			if k, ok := bf.addrKey(x, 0); ok {
 				return "f" + k, nil, true
 			}
+		case *ssa.IndexAddr:
+			// an element of a slice held in a field (a slice of slices): same slice value, same index value
+			if _, isSlice := x.X.Type().Underlying().(*types.Slice); isSlice {
+				if k, ok := bf.addrKey(x, 0); ok {
+					return "f" + k, nil, true
+				}
+			}
 		}
 		return "", nil, false
 	}
@@ -483,6 +490,24 @@ func (bf *boundsFn) addrKey(addr ssa.Value, d int) (string, bool) {
 			}
 		}
 		return fmt.Sprintf("%p", x), true
+	case *ssa.IndexAddr:
+		base := x.X
+		if u, ok := base.(*ssa.UnOp); ok && u.Op == token.MUL {
+			if r, ok := bf.localVN[u]; ok {
+				base = r
+			}
+		}
+		idx := x.Index
+		if u, ok := idx.(*ssa.UnOp); ok && u.Op == token.MUL {
+			if r, ok := bf.localVN[u]; ok {
+				idx = r
+			}
+		}
+		is := fmt.Sprintf("%p", idx)
+		if k, isK := constInt(idx); isK {
+			is = fmt.Sprint(k)
+		}
+		return fmt.Sprintf("%p[%s]", base, is), true
 	case *ssa.Alloc, *ssa.Parameter, *ssa.FreeVar, *ssa.Global:
 		return fmt.Sprintf("%p", x), true
 	}
@@ -1530,7 +1555,113 @@ func (bf *boundsFn) prove(fs *factSet, a, b bterm, k int64, depth int) bool {
 			}
 		}
 	}
+	// values captured by a function literal: a relation between captured values (and constants)
+	// that holds where the literal is created holds inside it
+	if bf.fn.Parent() != nil {
+		if mc, pa, pb, ok := bf.capturedTerms(a, b); ok {
+			pbf := bf.c.bounds(bf.fn.Parent())
+			if pfs := pbf.before[mc]; pfs != nil && pbf.prove(pfs, pa, pb, k, depth+1) {
+				return true
+			}
+		}
+	}
 	return false
+}
+
+// capturedTerms translates a and b to the enclosing function when each is a constant or the load of
+// a captured variable that the literal never writes and that has one store, which dominates the
+// literal's creation.
+func (bf *boundsFn) capturedTerms(a, b bterm) (*ssa.MakeClosure, bterm, bterm, bool) {
+	lit := bf.fn
+	par := lit.Parent()
+	var mc *ssa.MakeClosure
+	n := 0
+	for _, blk := range par.Blocks {
+		for _, in := range blk.Instrs {
+			if m, ok := in.(*ssa.MakeClosure); ok && m.Fn == ssa.Value(lit) {
+				mc = m
+				n++
+			}
+		}
+	}
+	if n != 1 {
+		return nil, bterm{}, bterm{}, false
+	}
+	pbf := bf.c.bounds(par)
+	any := false
+	tr := func(t bterm) (bterm, bool) {
+		if t.n == bzero {
+			return t, true
+		}
+		if t.n.k != kVal {
+			return bterm{}, false
+		}
+		ld, ok := t.n.v.(*ssa.UnOp)
+		if !ok || ld.Op != token.MUL {
+			return bterm{}, false
+		}
+		fv, ok := ld.X.(*ssa.FreeVar)
+		if !ok || freeVarStored(fv) {
+			return bterm{}, false
+		}
+		idx := -1
+		for i, x := range lit.FreeVars {
+			if x == fv {
+				idx = i
+			}
+		}
+		if idx < 0 || idx >= len(mc.Bindings) {
+			return bterm{}, false
+		}
+		al, ok := mc.Bindings[idx].(*ssa.Alloc)
+		if !ok {
+			return bterm{}, false
+		}
+		pv := singleStore(al)
+		if pv == nil {
+			return bterm{}, false
+		}
+		// the store must come before the literal's creation on every path
+		var st *ssa.Store
+		for _, r := range *al.Referrers() {
+			if s, ok := r.(*ssa.Store); ok && s.Addr == ssa.Value(al) {
+				st = s
+			}
+		}
+		if st == nil {
+			return bterm{}, false
+		}
+		if st.Block() == mc.Block() {
+			before := false
+			for _, in := range st.Block().Instrs {
+				if in == ssa.Instruction(st) {
+					before = true
+					break
+				}
+				if in == ssa.Instruction(mc) {
+					break
+				}
+			}
+			if !before {
+				return bterm{}, false
+			}
+		} else if !st.Block().Dominates(mc.Block()) {
+			return bterm{}, false
+		}
+		pt := pbf.norm(pv)
+		if !pt.ok {
+			return bterm{}, false
+		}
+		pt.c += t.c
+		any = true
+		return pt, true
+	}
+	pa, ok1 := tr(a)
+	pb, ok2 := tr(b)
+	if !ok1 || !ok2 || !any {
+		return nil, bterm{}, bterm{}, false
+	}
+	return mc, pa, pb, true
 }
 
 // ---------- obligations ----------
